@@ -97,6 +97,8 @@ class Generator:
     def __init__(self, template_path, src_path=None):
         self.template_path = template_path
         self.src = Source(src_path or os.path.join(REPO, 'src/lib.rs'))
+        self.default_src = self.src
+        self.sources = {}
         self.rule_log = {}
         self.functions = []       # dicts: name, src_name, line range in generated file, props, sha
         self.obligations = []     # dicts: id, props, fn, gen_line
@@ -160,6 +162,14 @@ class Generator:
 
     # -- body extraction --------------------------------------------------------------------------
     def extract_body(self, spec):
+        # `file=src/...` on a //@fn line (or the default file of an //@include) selects another source file of the tree
+        if spec.get('file'):
+            fp = os.path.join(REPO, spec['file'])
+            if fp not in self.sources:
+                self.sources[fp] = Source(fp)
+            self.src = self.sources[fp]
+        else:
+            self.src = self.default_src
         impl = spec.get('impl', 'bump')
         src_name = spec.get('src', spec['name'])
         if impl == 'bump':
@@ -233,6 +243,12 @@ class Generator:
             # ghost-only hints (proof blocks / ghost lets) anchored at a statement of the real body; exec statements are untouched
             ls = new.split('\n')
             idx = [k for k, l in enumerate(ls) if re.search(pat, l)]
+            if where.endswith('?'):
+                # optional ghost hint: if the statement it annotates is gone, the body is verified without it
+                where = where[:-1]
+                if not idx:
+                    self.rule_log['ghost-hint-unused'] = self.rule_log.get('ghost-hint-unused', 0) + 1
+                    continue
             if len(idx) != 1:
                 raise ExtractError('%s: hint anchor /%s/ matches %d lines' % (spec['name'], pat, len(idx)))
             k = idx[0] + (1 if where == 'after' else 0)
@@ -243,6 +259,11 @@ class Generator:
             o = new.index('{')
             new = new[:o + 1] + '\n    proof { // contract-side prologue (not part of the real body)\n' + spec['prologue'] + '\n    }' + new[o + 1:]
             self.rule_log['proof-prologue'] = self.rule_log.get('proof-prologue', 0) + 1
+        if spec.get('epilogue'):
+            # ghost-only: a proof block as the last statement of a body whose value is ()
+            c = new.rindex('}')
+            new = new[:c] + '    ; proof { // contract-side epilogue (not part of the real body)\n' + spec['epilogue'] + '\n    }\n' + new[c:]
+            self.rule_log['proof-epilogue'] = self.rule_log.get('proof-epilogue', 0) + 1
         parts['rewritten'] = new
         parts['sha256'] = hashlib.sha256(body.encode()).hexdigest()
         parts['rules'] = dict(rw.log)
@@ -377,7 +398,25 @@ class Generator:
 
     # -- template processing ------------------------------------------------------------------------
     def parse_template(self):
-        lines = open(self.template_path).read().split('\n')
+        lines = []
+        for ln in open(self.template_path).read().split('\n'):
+            m = re.match(r'//@include (\S+)(.*)$', ln)
+            if not m:
+                lines.append(ln)
+                continue
+            # //@include OTHER.vtmpl [file=DEFAULT_SOURCE] [subst=OLD=>NEW (~ for space)]: splice another template in
+            opts = dict(kv.split('=', 1) for kv in m.group(2).split() if '=' in kv)
+            inc = open(os.path.join(HERE, m.group(1))).read()
+            if opts.get('subst'):
+                a, b_ = opts['subst'].replace('~', ' ').split('=>')
+                if a not in inc:
+                    raise ExtractError('include %s: substitution source %r not found' % (m.group(1), a))
+                inc = inc.replace(a, b_)
+            for l2 in inc.split('\n'):
+                if l2.startswith('//@fn ') and opts.get('file') and ' file=' not in l2:
+                    l2 += ' file=' + opts['file']
+                lines.append(l2)
+            self.notes.append('included template %s' % m.group(1))
         # first pass: collect function specs to know which functions take the world
         specs, cur = [], None
         self.w_funcs = []
@@ -414,12 +453,20 @@ class Generator:
                 cur.setdefault('skip', set()).update(range(i, j + 1))
                 i = j
             elif ln.startswith('//@hint ') and cur is not None:
-                m = re.match(r'//@hint (after|before) /(.*)/\s*$', ln)
+                m = re.match(r'//@hint (after\??|before\??) /(.*)/\s*$', ln)
                 j = i + 1
                 blk = []
                 while not lines[j].startswith('//@endhint'):
                     blk.append(lines[j]); j += 1
                 cur.setdefault('hints', []).append((m.group(1), m.group(2), '\n'.join(blk)))
+                cur.setdefault('skip', set()).update(range(i, j + 1))
+                i = j
+            elif ln.startswith('//@epilogue') and cur is not None:
+                j = i + 1
+                blk = []
+                while not lines[j].startswith('//@endepilogue'):
+                    blk.append(lines[j]); j += 1
+                cur['epilogue'] = '\n'.join(blk)
                 cur.setdefault('skip', set()).update(range(i, j + 1))
                 i = j
             elif ln.startswith('//@prologue') and cur is not None:
@@ -498,7 +545,7 @@ class Generator:
                     parts['sha256'][:12], ','.join(sorted(parts['rules']))))
                 body_start = len(out) + 1
                 emit(parts['rewritten'])
-                cur_fn.update(src=s.get('src', s['name']), gen_end=len(out), body_start=body_start,
+                cur_fn.update(src=s.get('src', s['name']), src_file=os.path.relpath(self.src.path, REPO), gen_end=len(out), body_start=body_start,
                               props=[p for p in s.get('props', '').split(',') if p],
                               src_line=parts['line'], src_end_line=parts['end_line'], sha256=parts['sha256'],
                               rules=parts['rules'], sig=parts['sig'], real_body=parts['body'], rewritten=parts['rewritten'])
